@@ -152,8 +152,13 @@ func (s *csSuite) amount() sdkmath.Int {
 }
 
 // aroundDir: a bound next to the quote q; dir=-1: values <= q are satisfiable (minimums), dir=+1: values >= q (maximums)
-func (s *csSuite) aroundDir(q sdkmath.Int, dir int) sdkmath.Int {
+func (s *csSuite) aroundDir(q sdkmath.Int, dir int) (res sdkmath.Int) {
 	r := s.r
+	defer func() {
+		if x := recover(); x != nil {
+			res = q // arithmetic on a huge quote overflowed: fall back to the quote itself
+		}
+	}()
 	if s.force || r.Intn(10) < 6 {
 		// satisfiable side
 		switch r.Intn(4) {
@@ -183,7 +188,12 @@ func (s *csSuite) aroundDir(q sdkmath.Int, dir int) sdkmath.Int {
 	}
 }
 
-func (s *csSuite) around(q sdkmath.Int) sdkmath.Int {
+func (s *csSuite) around(q sdkmath.Int) (res sdkmath.Int) {
+	defer func() {
+		if x := recover(); x != nil {
+			res = q
+		}
+	}()
 	switch s.r.Intn(8) {
 	case 0:
 		return q.SubRaw(1)
@@ -683,20 +693,31 @@ func runCoinswap(seed uint64, nOps int, outPath string) map[string]int {
 				s.force = false
 			}
 			for i := 0; i < 150 && done < nOps; i++ {
-				switch k := s.r.Intn(20); {
-				case k < 5:
-					s.opAdd()
-				case k < 8:
-					s.opRemove()
-				case k < 16:
-					s.opSwap()
-				case k < 18:
-					s.opSend()
-				default:
+				k := s.r.Intn(20)
+				if k >= 18 {
 					s.stepTime()
 					s.sync()
 					continue
 				}
+				// a panic while *generating* an operation (arithmetic on extreme values) must not end the run
+				func() {
+					defer func() {
+						if x := recover(); x != nil {
+							s.stat["generator-panic"]++
+							s.sync()
+						}
+					}()
+					switch {
+					case k < 5:
+						s.opAdd()
+					case k < 8:
+						s.opRemove()
+					case k < 16:
+						s.opSwap()
+					default:
+						s.opSend()
+					}
+				}()
 				done++
 			}
 		}
